@@ -84,7 +84,8 @@ func conservation(x, p, s []byte, snap *stack.Snapshot, err error) (int, error) 
 func c02LawOracle(c c02LawCase) error {
 	in := bytes.NewReader(c.X)
 	var w bytes.Buffer
-	snap, suffix, err := stack.ScanSnapshot(in, &w, plainOpts())
+	opts, _ := variantOpts(c.X)
+	snap, suffix, err := stack.ScanSnapshot(in, &w, opts)
 	rest, _ := io.ReadAll(in)
 	s := append(append([]byte{}, suffix...), rest...)
 	hits, e := conservation(c.X, w.Bytes(), s, snap, err)
@@ -134,7 +135,8 @@ func c02FailOracle(c c02FailCase) error {
 	cut := c.Cut % (len(x) + 1)
 	r := &cutReader{data: x, c: cut, err: errInjected, withData: c.WithData, chunk: c.Chunk}
 	var w bytes.Buffer
-	snap, suffix, err := stack.ScanSnapshot(r, &w, plainOpts())
+	opts, _ := variantOpts(x)
+	snap, suffix, err := stack.ScanSnapshot(r, &w, opts)
 	s := append(append([]byte{}, suffix...), x[r.pos:cut]...)
 	hits, e := conservation(x[:cut], w.Bytes(), s, snap, err)
 	if hits > 0 {
@@ -218,7 +220,9 @@ func streamTruth(s *StreamM, h *history, checkSnaps bool) error {
 }
 
 func c02StreamOracle(c c02StreamCase) error {
-	h := resumeLoop(c.D.reader(c.S.Bytes()), plainOpts(), len(c.S.Items)+3)
+	opts, loose := variantOpts(c.S.Bytes())
+	defer looseFor(loose)()
+	h := resumeLoop(c.D.reader(c.S.Bytes()), opts, len(c.S.Items)+3)
 	return streamTruth(&c.S, &h, true)
 }
 
@@ -251,6 +255,9 @@ func streamObs(s *StreamM) Obs {
 	}
 	if len(s.Items) >= 2 {
 		cl = append(cl, "multi_dump")
+	}
+	if o, _ := variantOpts(x); o.GuessPaths || o.NameArguments {
+		cl = append(cl, fmt.Sprintf("scanned_with_naming=%v_guesspaths=%v_analyze=%v", o.NameArguments, o.GuessPaths, o.AnalyzeSources))
 	}
 	return Obs{Nontrivial: nt && len(s.Items) >= 1, Digest: digestBytes(x), Classes: cl, Sample: quoteShort(x)}
 }
